@@ -180,8 +180,9 @@ Proof.
   rewrite Hd in H.
   destruct (copy_submodels K h (ocells od)) as [[h1 cs']|] eqn:Cs; [|discriminate].
   set (h2 := h1 ++ [mkObj KDict cs']) in *.
-  destruct (init_M h2 c K (linker_iargs h2 K (length h1) (k_linker_name K))) as [[h3 r3] ok] eqn:I.
-  cbn [fst snd] in H. destruct ok; [|discriminate].
+  set (nme := linker_name K o) in *.
+  destruct (init_M h2 c K (linker_iargs h2 K (length h1) nme)) as [[h3 r3] ok] eqn:I.
+  cbn [fst snd] in H. destruct (has_key nme cs'); [discriminate|]. destruct ok; [|discriminate].
   destruct (dc_entries_pol (k_single_memo K) h3 (filter (fun kv => negb (fst kv =? KP)) (ocells o))) as [[h4 es]|] eqn:E; [|discriminate].
   destruct (nth_error h4 r3) as [o'|] eqn:Eo'; [|discriminate].
   inversion H; subst r'; clear H.
@@ -191,12 +192,12 @@ Proof.
   assert (W2 : wf h2).
   { apply wf_snoc; auto. intros l Hl. assert (N <= l < length h1)%nat by (eapply cells_ok_refs; eauto). lia. }
   assert (L2 : length h2 = S (length h1)) by (unfold h2; rewrite app_length; simpl; lia).
-  destruct (linker_iargs_linker h2 K (length h1) (k_linker_name K)) as (sp & lg & ld & IL & _).
+  destruct (linker_iargs_linker h2 K (length h1) nme) as (sp & lg & ld & IL & _).
   destruct (init_linker_spec h2 c K _ (length h1) _ lg ld h3 r3 I IL (linker_iargs_safe _ _ _ _) W2 ltac:(lia))
     as (-> & U3 & o3 & Ho3 & Kp3).
   (* wf of h3: by the region form with N := 0 *)
   assert (W3 : wf h3).
-  { assert (IA0 : iargs_above 0 (h2 ++ [mkObj (KCont c) []]) (linker_iargs h2 K (length h1) (k_linker_name K))).
+  { assert (IA0 : iargs_above 0 (h2 ++ [mkObj (KCont c) []]) (linker_iargs h2 K (length h1) nme)).
     { apply linker_iargs_above. rewrite app_length; simpl. lia. }
     destruct (init_M_spec 0 _ _ _ _ _ _ _ I W2 ltac:(lia) ltac:(intros i oi l _ _ _; lia) IA0) as (W3 & _). exact W3. }
   assert (L3 : (length h2 < length h3)%nat) by (eapply nth_error_lt; exact Ho3).
@@ -204,10 +205,10 @@ Proof.
   assert (Kd3 : okind o3 = KCont c).
   { unfold init_M, new_instance in I. cbn [fst snd] in I.
     set (h0 := h2 ++ [mkObj (KCont c) []]) in *.
-    destruct (run_actions h0 (length h2) (init_actions h0 c K (linker_iargs h2 K (length h1) (k_linker_name K)))) as [hx okx] eqn:R.
+    destruct (run_actions h0 (length h2) (init_actions h0 c K (linker_iargs h2 K (length h1) nme))) as [hx okx] eqn:R.
     cbn [fst snd] in I. inversion I; subst hx okx.
     assert (W0 : wf h0) by (apply wf_snoc; auto; intros l []).
-    assert (AB0 : Forall (act_above 0 h0) (init_actions h0 c K (linker_iargs h2 K (length h1) (k_linker_name K)))).
+    assert (AB0 : Forall (act_above 0 h0) (init_actions h0 c K (linker_iargs h2 K (length h1) nme))).
     { apply init_actions_above. apply linker_iargs_above. unfold h0. rewrite app_length; simpl. lia. }
     destruct (actions_kinds _ _ _ _ _ R W0 ltac:(unfold h0; rewrite app_length; simpl; lia) AB0 (length h2) _ (nth_error_app_new h2 _))
       as (ox & Hx & Kx). rewrite Ho3 in Hx. inversion Hx; subst ox. exact Kx. }
